@@ -143,7 +143,11 @@ fn pen() -> Face {
 }
 
 const NSYM: usize = 12;
-const SYM_NAMES: [&str; NSYM + 1] = ["a", "é", "世", "U+0301", "NUL", "\\n", "\\t", "\\r", "glyph(gl)", "glyph(世x)", "img1x1", "img2x2", "U+1F600"];
+const SYM_NAMES: [&str; NSYM + 3] = [
+    "a", "é", "世", "U+0301", "NUL", "\\n", "\\t", "\\r", "glyph(gl)", "glyph(世x)", "img1x1", "img2x2", "U+1F600", "glyph(a\\tb)", "glyph(a\\nb)",
+];
+/// symbols of the extra text-view sweep: glyphs whose fallback text holds a tab / a newline (symbols 13, 14)
+const TEXT_EXTRA_SYMS: [u8; 6] = [0, 2, 5, 8, 13, 14];
 /// a wide character of four UTF-8 bytes; symbol 12, used by the byte-level part only
 const EMOJI: char = '\u{1f600}';
 /// symbols of the byte-level part B: the eight character symbols and the four-byte character
@@ -153,6 +157,8 @@ const SYM_CHARS: [char; 8] = ['a', 'é', '世', '\u{301}', '\0', '\n', '\t', '\r
 struct Alphabet {
     glyph_n: Glyph,
     glyph_w: Glyph,
+    glyph_tab: Glyph,
+    glyph_nl: Glyph,
     img1: Image,
     img2: Image,
     cells: Vec<Cell>,
@@ -171,7 +177,11 @@ static ALPHA: LazyLock<Alphabet> = LazyLock::new(|| {
     cells.push(Cell::new_image(img1.clone()).with_face(pen()));
     cells.push(Cell::new_image(img2.clone()).with_face(pen()));
     cells.push(Cell::new_char(pen(), EMOJI));
-    Alphabet { glyph_n, glyph_w, img1, img2, cells }
+    let glyph_tab = make_glyph(Size::new(1, 2), "a\tb");
+    let glyph_nl = make_glyph(Size::new(1, 2), "a\nb");
+    cells.push(Cell::new_glyph(pen(), glyph_tab.clone()));
+    cells.push(Cell::new_glyph(pen(), glyph_nl.clone()));
+    Alphabet { glyph_n, glyph_w, glyph_tab, glyph_nl, img1, img2, cells }
 });
 
 /// What a cell is, as far as the oracle is concerned.
@@ -189,7 +199,9 @@ impl Tok {
             Tok::Ch(c) if (*c as u32) < 0x20 || *c == '\u{301}' => format!("U+{:04X}", *c as u32),
             Tok::Ch(c) => c.to_string(),
             Tok::Glyph(0) => "<glyph gl>".into(),
-            Tok::Glyph(_) => "<glyph 世x>".into(),
+            Tok::Glyph(1) => "<glyph 世x>".into(),
+            Tok::Glyph(2) => "<glyph a\\tb>".into(),
+            Tok::Glyph(_) => "<glyph a\\nb>".into(),
             Tok::Img(0) => "<img1x1>".into(),
             Tok::Img(_) => "<img2x2>".into(),
             Tok::Other => "<?>".into(),
@@ -205,6 +217,10 @@ fn tok_of(cell: &Cell) -> Tok {
                 Tok::Glyph(0)
             } else if *g == ALPHA.glyph_w {
                 Tok::Glyph(1)
+            } else if *g == ALPHA.glyph_tab {
+                Tok::Glyph(2)
+            } else if *g == ALPHA.glyph_nl {
+                Tok::Glyph(3)
             } else {
                 Tok::Other
             }
@@ -224,7 +240,7 @@ fn tok_of(cell: &Cell) -> Tok {
 /// Reference widths (Unicode East Asian Width: 世 is wide; é, a narrow; combining and controls 0).
 fn ref_char_width(c: char) -> usize {
     match c {
-        'a' | 'é' | 'g' | 'l' | 'x' => 1,
+        'a' | 'b' | 'é' | 'g' | 'l' | 'x' => 1,
         '世' | EMOJI => 2,
         _ => 0,
     }
@@ -252,6 +268,13 @@ fn expand(sym: usize, glyphs: bool) -> Vec<(Tok, usize)> {
         10 => vec![(Tok::Img(0), 1)],
         11 => vec![(Tok::Img(1), 2)],
         12 => vec![(Tok::Ch(EMOJI), 2)],
+        13 | 14 => {
+            if glyphs {
+                vec![(Tok::Glyph(sym as u8 - 11), 2)]
+            } else {
+                (if sym == 13 { "a\tb" } else { "a\nb" }).chars().map(|c| (Tok::Ch(c), ref_char_width(c))).collect()
+            }
+        }
         _ => unreachable!(),
     }
 }
@@ -382,7 +405,7 @@ const P_TEXT: usize = 4;
 const SGR_TOKENS: [&str; 3] = ["\x1b[1m", "\x1b[m", "\x1b[31m"];
 
 fn seq_chars(seq: &[u8]) -> Vec<char> {
-    seq.iter().map(|s| if *s == 12 { EMOJI } else { SYM_CHARS[*s as usize] }).collect()
+    seq.iter().map(|s| if *s >= 12 { EMOJI } else { SYM_CHARS[*s as usize] }).collect()
 }
 
 fn utf8_bytes(seq: &[u8]) -> Vec<u8> {
@@ -866,6 +889,36 @@ pub fn run(ctx: &Ctx) -> Result<Report, String> {
             }
             for h in local_text {
                 text_outcomes[(h % 64) as usize].lock().unwrap().insert(h);
+            }
+        });
+    }
+
+    // ---- part A': text view only, glyphs whose fallback text contains a tab or a newline
+    {
+        let k = TEXT_EXTRA_SYMS.len() as u64;
+        let mut seqs: Vec<Vec<u8>> = vec![];
+        for len in 1..=3usize {
+            for idx in 0..k.pow(len as u32) {
+                let seq: Vec<u8> = seq_from_index(idx, len, k).iter().map(|d| TEXT_EXTRA_SYMS[*d as usize]).collect();
+                if seq.iter().any(|x| *x >= 13) {
+                    seqs.push(seq);
+                }
+            }
+        }
+        seqs.par_iter().for_each_init(Ctxs::new, |ctxs, seq| {
+            for wraps in [true, false] {
+                for glyphs in [true, false] {
+                    for w in [1usize, 2, 3, 4, 5, 6, 9, 10, 30] {
+                        ev_text.fetch_add(1, Ordering::Relaxed);
+                        if let Err(f) = check_text(ctxs, seq, wraps, glyphs, w) {
+                            viol.add(
+                                format!("text:{}", f.kind),
+                                format!("Text of [{}]: {}", seq_json(seq), f.detail),
+                                json!({"check": "text", "seq": seq_json(seq), "wraps": wraps, "glyphs": glyphs, "max_width": w}),
+                            );
+                        }
+                    }
+                }
             }
         });
     }
